@@ -24,7 +24,24 @@ func main() {
 	loop := flag.Int("loop", 0, "debug: loop bound for -dump")
 	shareddbg := flag.Bool("shared", false, "debug: list writes to shared locations")
 	mapdbg := flag.Bool("maporder", false, "debug: list all range-over-map sites with their class")
+	lintdbg := flag.Bool("lints", false, "debug: run every control-flow lint over every module function")
 	flag.Parse()
+	if *lintdbg {
+		abs, _ := filepath.Abs(*repo)
+		ctx, err := an.Load(abs, "dump", "quick")
+		if err != nil {
+			fmt.Fprintln(os.Stderr, err)
+			os.Exit(2)
+		}
+		for _, d := range ctx.ModuleDirs() {
+			for _, f := range ctx.AllFuncs(d) {
+				for _, h := range an.AllLints(f) {
+					fmt.Printf("LINT %s %s %s\n", ctx.Position(h.Pos), h.Construct, h.Msg)
+				}
+			}
+		}
+		return
+	}
 	if *shareddbg {
 		abs, _ := filepath.Abs(*repo)
 		ctx, err := an.Load(abs, "dump", "quick")
@@ -143,6 +160,7 @@ func main() {
 			}
 		}()
 		explanation := run(ctx)
+		props.AnchorRules(ctx)
 		if *tier == "thorough" {
 			results := replaySeeds(*verif, abs, *prop)
 			fired, applied := 0, 0
